@@ -1113,11 +1113,20 @@ def hu_gen_fq(rng, nops):
     # peek() caches the front iterator and pop()/peek() reuse it whatever factor they are given until the queue is modified (the
     # cache is keyed on "queue modified", not on the factor): the oracle follows that cache; finite factors go through the Lean rule
     facs = rng.choice([["inf"], ["inf"], ["1"], ["2"], ["3"], ["inf", "1", "2", "3"]])
+    liveg = set()
     for _ in range(nops):
         r = rng.below(100)
         s_, t_ = rng.choice(S), rng.choice(T)
-        if r < 40:
+        if r < 36:
             lines.append("ins %d %d" % (s_, t_))
+            liveg.add((s_, t_))
+        elif r < 44 and liveg:
+            # the front cache: peek caches, a key of a queued edge changes and the queue is told (updateIfExists), pop must recompute
+            a_, b_ = rng.choice(sorted(liveg))
+            lines.append("peek " + rng.choice(facs))
+            lines.append("set %d %s %d" % (b_, rng.choice(["eetg", "ectg", "actg"]), rng.below(9)))
+            lines.append("upd %d %d" % (a_, b_))
+            lines.append(rng.choice(["pop ", "peek "]) + rng.choice(facs))
         elif r < 55:
             lines.append("set %d %s %d" % (rng.choice(S + T), rng.choice(["cctc", "ectg", "actg", "eetg"]), rng.below(9)))
             lines.append("upd %d %d" % (s_, t_))
@@ -1382,7 +1391,17 @@ MANIFEST = {
             "size = live count and live set recomputed from the script, handles identify their element, the copy pops non-decreasingly, "
             "pop/peek/top return a minimal element) with the model (drv_heapaudit: heapOrdered/topIsMin/popAll on the same rank vector) "
             "as tie and as aim of a targeted search that replays a mis-ordered dump on the real BinaryHeap - not a proof about GridB, "
-            "SearchQueue, AITstar or ReverseQueue.",
+            "SearchQueue or AITstar. Round 2: ONE user is modelled end to end - eitstar::ReverseQueue (insertOrUpdate/updateIfExists/pop/"
+            "clear/rebuild/removeOutgoingEdges/setCostQueueOrder as coded over the heap model, stored keys as copies of a key function of "
+            "the vertex fields, handle lookups as vectors): reverseQueue_heap_consistent (heap invariant w.r.t. the current order and stored "
+            "keys after every public operation interleaved with arbitrary field changes, for both strict weak orders), "
+            "reverseQueue_insertOrUpdate_fresh / reverseQueue_rebuild_all_fresh (the stored key is the key of the fields at the time the "
+            "queue was told), the code's two orders proved strict weak, and the reviewers' key3 change refuted inside the model; the real "
+            "class runs in lock-step with the compiled model (stored keys in array order + lookups, every op) next to a Python oracle that "
+            "recomputes the keys from the script. ForwardQueue (not a BinaryHeap): the front-selection rule as coded is a Lean function "
+            "(forwardQueue_pop_rule: inside the container; least effort for an infinite factor) executed against every peek/pop of the real "
+            "class for finite and infinite factors. Planner queues are also dumped from INSIDE solve() through the harness's own validity "
+            "checker (between queue operations).",
     "note": "Trusted: Lean kernel, the three standard axioms, the hand-written model outside the scripts the correspondence "
             "explored, the harnesses (heapusers.cpp opens private/protected in its own translation unit; ranks come from a stable sort "
             "with the heap's comparator; pop order from a second BinaryHeap instance with the dumped array injected). The comparison "
